@@ -48,6 +48,12 @@ def run(sess: Session):
                     sess.unsupported(d['unsupported'], d['reason'])
                 else:
                     sess.record_remote(d)
+    # character data arrives in pieces (expat buffers): char_data must append, end() normalises the whole
+    from contracts import C20 as c20
+    for v in lmfrt.VERSIONS:
+        for ob in c20.end_char_obligations(v):
+            ob.prop = PROP
+            sess.check(ob)
     bounded(sess)
     sess.level = 'proof'
     sess.explanation = ('write -> read -> validate == identity per element kind for all values (z3) over the A-XML '
